@@ -74,6 +74,7 @@ fn phase_form(t: &M4) -> Option<(i64, i64)> {
     } else { None }
 }
 
+fn gcd64(a: i64, b: i64) -> i64 { let (mut a, mut b) = (a.abs(), b.abs()); while b != 0 { let t = a % b; a = b; b = t; } a }
 pub fn run(cx: &mut Ctx) {
     let w = |k: i64| -> M4 { let mut m = [Q::zero(), Q::zero(), Q::zero(), Q::zero()]; let k = k.rem_euclid(8) as usize; m[k % 4] = if k >= 4 { -q(1) } else { q(1) }; m };
     let sc = |c: [i64; 4], e: i32| -> (Scalar4, M4) { (Scalar4::new(c, e), [q(c[0]) * pow2(e as i64), q(c[1]) * pow2(e as i64), q(c[2]) * pow2(e as i64), q(c[3]) * pow2(e as i64)]) };
@@ -92,6 +93,26 @@ pub fn run(cx: &mut Ctx) {
         for k in -12i64..=12 { for d in [1i64, 2, 4] { if (k * d) % 4 == 0 || true { let s = Scalar4::from_phase(Phase::new(Rational64::new(k, d))); let m = w(k * (4 / d)); cb(&|| format!("from_phase({}/{})", k, d), honest(&s, &m).and_then(|_| if s.approx() { Err("flagged".into()) } else { Ok(()) })); } } }
         cb(&|| "minus_one()".into(), honest(&Scalar4::minus_one(), &w(4)));
         for (n, d) in [(0i64, 1i64), (1, 1), (1, 2), (3, 4), (-1, 4)] { let s = Scalar4::one_plus_phase(Phase::new(Rational64::new(n, d))); cb(&|| format!("one_plus_phase({}/{})", n, d), honest(&s, &m_add(&w(0), &w(n * (4 / d))))); }
+    });
+    cx.check("from_phase_other_denominators", |cb| {
+        // phases whose denominator does not divide 4: e^{i pi n/d} is not of the form 2^k(a + b w + c w^2 + d w^3), so the scalar must be
+        // flagged approximate and be numerically close to (cos(pi n/d), sin(pi n/d)); the same through From<Phase>, mul_phase and one_plus_phase
+        for d in [3i64, 5, 6, 7, 8, 12, 16, 24, 100] { for n in -d + 1..=d { if gcd64(n, d) != 1 { continue; }
+            let ph = Phase::new(Rational64::new(n, d));
+            let ang = std::f64::consts::PI * (n as f64) / (d as f64);
+            let near = |z: num::Complex<f64>, re: f64, im: f64| (z.re - re).abs() < 1e-9 && (z.im - im).abs() < 1e-9;
+            for (what, s, re, im) in [
+                ("from_phase", guard(|| Scalar4::from_phase(ph)), ang.cos(), ang.sin()),
+                ("From<Phase>", guard(|| { let s: Scalar4 = ph.into(); s }), ang.cos(), ang.sin()),
+                ("one_plus_phase", guard(|| Scalar4::one_plus_phase(ph)), 1.0 + ang.cos(), ang.sin()),
+                ("2.mul_phase", guard(|| { let mut s = Scalar4::new([2, 0, 0, 0], 0); s.mul_phase(ph); s }), 2.0 * ang.cos(), 2.0 * ang.sin()),
+            ] {
+                let res = match s { Err(e) => Err(e), Ok(s) => match guard(|| s.complex_value()) { Err(e) => Err(e),
+                    Ok(z) => if !near(z, re, im) { Err(format!("value {} but e^(i pi {}/{}) gives ({:.6}, {:.6})", z, n, d, re, im)) }
+                             else if !s.approx() { Err("the value is not exactly representable but the result is NOT flagged approximate".to_string()) } else { Ok(()) } } };
+                cb(&|| format!("{}({}/{})", what, n, d), res);
+            }
+        } }
     });
     // level 1: all binary operations on the pool
     let mut l1: Vec<(String, Scalar4, M4)> = vec![];
